@@ -1971,11 +1971,12 @@ Proof. intros. unfold keep_declined. destruct (s_declined s0); exact H. Qed.
 Lemma Pk_flushobj_op : forall s h, Pk sch s -> Pk sch (fst (flushobj_op sch s h)).
 Proof.
   intros s h P. unfold flushobj_op. destruct (hget s h) as [o|]; [|exact P]. destruct (get_obj s o) as [ob|]; [|exact P].
-  assert (X : Pk sch (fst (match o_pos ob with None => (s, RErr EAssertion) | Some _ => if s_savedpend s then (s, RErr EAssertion) else
-               match save_obj (S (length (s_objs s))) sch s o [] with Ok s1 _ => (set_savedpend s1 false, ROk) | Err s1 er => (s1, RErr er) end end))).
-  { destruct (o_pos ob); [|exact P]. destruct (s_savedpend s). exact P.
-    pose proof (Pk_save_obj sch (S (length (s_objs s))) s o [] P) as Q. destruct (save_obj (S (length (s_objs s))) sch s o []) as [s1 u|s1 er]; exact Q. }
-  destruct (o_st ob); try exact P; exact X.
+  assert (X : Pk sch (fst (flushobj_go sch s o ob))).
+  { unfold flushobj_go. destruct (o_pos ob); [|exact P]. destruct (s_savedpend s). exact P.
+    assert (Q : Pk sch (out_state (save_obj (S (length (s_objs s))) sch s o []))) by (apply Pk_save_obj; auto).
+    destruct (save_obj (S (length (s_objs s))) sch s o []) as [s1 u|s1 er]; exact Q. }
+  destruct (o_st ob); try exact P; try exact X.
+  match goal with |- context [if ?c then _ else _] => destruct c end. exact P. exact X.
 Qed.
 
 Lemma Pk_step : forall s op, Pk sch s -> Pk sch (fst (step sch s op)).
